@@ -133,3 +133,10 @@ Theorem C03_crash_during_close_on_the_real_index :
     st_rel sp2 sf2 /\ Inv P sf2 /\ s_mem sf2 <> None /\ answers P sp2 (abs (s_disk sf)).
 Proof. exact chain_crash_close. Qed.
 Print Assumptions C03_crash_during_close_on_the_real_index.
+
+(* the recovering Open runs alone: the background worker (periodic Sync and compaction) is started only
+   after recover() has returned (regenerated call skeleton of Open) *)
+From Pogreb Require Import ShapeCheck.
+Theorem C03_recovery_runs_alone : open_worker_after_recovery = true.
+Proof. exact shape_open_worker_after_recovery. Qed.
+Print Assumptions C03_recovery_runs_alone.
